@@ -1,0 +1,62 @@
+//go:build verif
+
+package httputil
+
+// Contracts for the deductive verifier in /verif (govc); comments only.
+
+/*@
+// Wrap (property C20): the ghost event log records the Middleware.Wrap calls.
+// The middlewares are applied last to first, each to the result of the
+// previous application, and the outermost result is returned - so a request
+// enters m1 first and reaches h last (provided each middleware's handler
+// calls the handler it wrapped).
+func Wrap
+  requires all_set: forall i in 0..len(middlewares): middlewares[i] != nil
+  ensures one_call_each: events() == len(middlewares)
+  ensures nested_in_order: forall k in 0..len(middlewares):
+    evis(k, "github.com/AdguardTeam/golibs/netutil/httputil.Middleware.Wrap") &&
+    evarg("github.com/AdguardTeam/golibs/netutil/httputil.Middleware.Wrap", k, 0) == middlewares[len(middlewares) - 1 - k] &&
+    evarg("github.com/AdguardTeam/golibs/netutil/httputil.Middleware.Wrap", k, 1) ==
+      (k == 0 ? h : evres("github.com/AdguardTeam/golibs/netutil/httputil.Middleware.Wrap", k - 1, 0))
+  ensures outermost_returned: wrapped ==
+    (len(middlewares) == 0 ? h : evres("github.com/AdguardTeam/golibs/netutil/httputil.Middleware.Wrap", len(middlewares) - 1, 0))
+  loop 0
+    invariant index: -1 <= i && i < len(middlewares)
+    invariant count: events() == len(middlewares) - 1 - i
+    invariant nested: forall k in 0..len(middlewares) - 1 - i:
+      evis(k, "github.com/AdguardTeam/golibs/netutil/httputil.Middleware.Wrap") &&
+      evarg("github.com/AdguardTeam/golibs/netutil/httputil.Middleware.Wrap", k, 0) == middlewares[len(middlewares) - 1 - k] &&
+      evarg("github.com/AdguardTeam/golibs/netutil/httputil.Middleware.Wrap", k, 1) ==
+        (k == 0 ? h : evres("github.com/AdguardTeam/golibs/netutil/httputil.Middleware.Wrap", k - 1, 0))
+    invariant current: wrapped ==
+      (i == len(middlewares) - 1 ? h : evres("github.com/AdguardTeam/golibs/netutil/httputil.Middleware.Wrap", len(middlewares) - 2 - i, 0))
+    decreases i + 1
+
+// CodeRecorderResponseWriter: the recorded code is the one the handler set,
+// 200 when it set none; everything is forwarded to the wrapped writer as is.
+func (*CodeRecorderResponseWriter).WriteHeader
+  requires w != nil && w.rw != nil
+  modifies w.code
+  ensures recorded: w.code == code
+  ensures forwarded: calls("net/http.ResponseWriter.WriteHeader") == 1 &&
+    callarg("net/http.ResponseWriter.WriteHeader", 0) == w.rw && callarg("net/http.ResponseWriter.WriteHeader", 1) == code
+
+func (*CodeRecorderResponseWriter).Write
+  requires w != nil && w.rw != nil
+  ensures forwarded: calls("net/http.ResponseWriter.Write") == 1 && callarg("net/http.ResponseWriter.Write", 0) == w.rw &&
+    callarg("net/http.ResponseWriter.Write", 1) == b && n == callres("net/http.ResponseWriter.Write", 0) && err == callres("net/http.ResponseWriter.Write", 1)
+
+func (*CodeRecorderResponseWriter).SetImplicitSuccess
+  requires w != nil
+  modifies w.code
+  ensures implicit_200: w.code == (old(w.code) != 0 ? old(w.code) : 200)
+
+func (*CodeRecorderResponseWriter).Reset
+  requires w != nil
+  modifies w.rw, w.code
+  ensures reset: w.rw == rw && w.code == 0
+
+func (*CodeRecorderResponseWriter).Code
+  requires w != nil
+  ensures code == w.code
+@*/
